@@ -20,7 +20,7 @@ func init() {
 	core.Register(&core.Check{
 		ID:    "C36",
 		Level: "exploration",
-		Rule: "every ordered forest with <=4 nodes and depth <=3 (21 shapes) x every target-page assignment over 4 pages (valid ones: siblings non-decreasing, first kid >= parent - must round-trip; invalid ones must be rejected with the invalid-bookmark error) x title variation one node at a time over {A, ü, '(', U+1D11E, 'Part<U+00A0>1', 'a<U+200C>b', '第1章<U+3000>序'} x style variation one node at a time {bold, italic, both, colour}: AddBookmarks -> export J1 -> import(replace) into a fresh copy -> export J2, J1 == J2 == the tree that was added; plus depth-5 chains and 6-sibling rows; plus docgen-written outlines (UTF-16BE titles) exported directly; corrupted outlines: every assignment of /Next, /First, /Parent, /Prev, /Last of each node of a 3-node outline to every node: listing and export must terminate with a result or an error; " +
+		Rule: "every ordered forest with <=4 nodes and depth <=3 (21 shapes) x every target-page assignment over 4 pages (valid ones: siblings non-decreasing, first kid >= parent - must round-trip; invalid ones must be rejected with the invalid-bookmark error) x title variation one node at a time over {A, ü, '(', U+1D11E, 'Part<U+00A0>1', 'a<U+200C>b', '第1章<U+3000>序'} x every partition of the nodes into classes of EQUAL titles x style variation one node at a time {bold, italic, both, colour}: AddBookmarks -> export J1 -> import(replace) into a fresh copy -> export J2, J1 == J2 == the tree that was added; plus depth-5 chains and 6-sibling rows; plus docgen-written outlines (UTF-16BE titles) exported directly; corrupted outlines: every assignment of /Next, /First, /Parent, /Prev, /Last of each node of a 3-node outline to every node: listing and export must terminate with a result or an error; " +
 			"non-trivial = a tree with >=2 nodes or a non-ASCII title",
 		Assume: []string{"JSON trees are compared structurally after parsing (title, page, bold, italic, colour, kids, order); header fields are ignored"},
 		Run:    runC36,
@@ -282,6 +282,35 @@ func runC36(r *core.R) {
 			for i := range asc {
 				asc[i] = 2
 			}
+		}
+		// equal titles: every partition of the nodes into title classes (all equal, pairs equal, ...): named
+		// destinations and name-tree keys derived from titles must not make equal titles share a target
+		{
+			var part func(i int, cls []int, k int)
+			part = func(i int, cls []int, k int) {
+				if i == n {
+					if k == n {
+						return // all distinct: covered above
+					}
+					ts := make([]string, n)
+					for j, c := range cls {
+						ts[j] = []string{"Same", "Other", "Third", "Fourth"}[c]
+					}
+					// spread the pages so that equal titles point at different pages where the shape allows it
+					idx := 0
+					bms := buildBms(fc.f, asc, ts, zero, &idx)
+					c36roundtrip(r, base, bms, "equal-titles", true)
+					return
+				}
+				for c := 0; c <= k && c < 4; c++ {
+					nk := k
+					if c == k {
+						nk = k + 1
+					}
+					part(i+1, append(cls, c), nk)
+				}
+			}
+			part(0, nil, 0)
 		}
 		for i := 0; i < n; i++ {
 			for _, t := range titles {
